@@ -31,6 +31,7 @@ XV_DIGEST_STUB (md5, MD5_CTX, 16, MD5_Init, MD5_Update, MD5_Final, size_t)
 XV_DIGEST_STUB (sha, SHA256_CTX, 32, SHA256_Init, SHA256_Update, SHA256_Final, size_t)
 #include "lib/crypt-sha256.c"
 #define METHOD_FN crypt_sha256crypt_rn
+#define METHOD_CAN_FAIL 1           /* malformed rounds= field */
 #define PREFIX "$5$"
 #define SHA_DIGEST 32
 #define SHA_CHARS 43
@@ -44,6 +45,7 @@ static const unsigned char sha_perm[][3] = { {0, 10, 20}, {21, 1, 11}, {12, 22, 
 XV_DIGEST_STUB (sha, SHA512_CTX, 64, SHA512_Init, SHA512_Update, SHA512_Final, size_t)
 #include "lib/crypt-sha512.c"
 #define METHOD_FN crypt_sha512crypt_rn
+#define METHOD_CAN_FAIL 1           /* malformed rounds= field */
 #define PREFIX "$6$"
 #define SHA_DIGEST 64
 #define SHA_CHARS 86
@@ -140,7 +142,11 @@ void harness (void)
     {
       XV_ASSERT ("C05", out[gk] == o_gk, "a failing method leaves the output (failure token) untouched");
       XV_ASSERT ("C05", err == EINVAL || err == ERANGE || err == ENOMEM, "a failing method sets errno to EINVAL, ERANGE or ENOMEM");
+#if defined WEAK || defined METHOD_CAN_FAIL
       XV_CANARY ("failure path");
+#else
+      XV_ASSERT ("C10,C06", 0, "under do_crypt's guarantees this method cannot fail (every well-formed setting with its prefix is hashable)");
+#endif
       return;
     }
   XV_CANARY ("success path");
